@@ -5,7 +5,9 @@ r = sys.argv[1]
 for d in sorted(glob.glob(f'/verif/seeded/*-r{r}-seed*')):
     m = json.load(open(d + '/meta.json'))
     caught = ', '.join(m.get('caught_by') or []) or '-'
-    if m.get('outside_documented_domain'):
+    if m.get('table_remark'):
+        remark = m['table_remark']
+    elif m.get('outside_documented_domain'):
         remark = 'needs an input outside the documented domain; deliberately not reported (see meta.json)'
     elif m.get('initially_missed'):
         remark = 'missed at first; check strengthened (see meta.json)'
